@@ -47,7 +47,7 @@ def main():
     res['confirmed'] = confirmed
     print(json.dumps(res, indent=1))
     if confirmed:
-        d = os.path.join(VERIF, 'seeded', '%s_%s' % (prop, k))
+        d = os.path.join(VERIF, 'seeded', '%s_%s%s' % (prop, os.environ.get('SEED_TAG', ''), k))
         os.makedirs(d, exist_ok=True)
         shutil.copy(patch, os.path.join(d, 'patch.diff'))
         shutil.copy(demo, os.path.join(d, 'demo.py'))
